@@ -398,7 +398,9 @@ fn block_coordinate_descent<'a, F: Float>(
 // Algorithm based off of this post: https://math.stackexchange.com/questions/2045579/deriving-block-soft-threshold-from-l-2-norm-prox-operator
 fn block_soft_thresholding<F: Float>(x: ArrayView1<F>, threshold: F) -> Array1<F> {
     let norm_x = x.dot(&x).sqrt();
-    if norm_x < threshold {
+    // the boundary belongs to the zero region: for a threshold of zero (no l1 part) and a feature
+    // orthogonal to the residuals the scale below would be `1 - 0 / 0`
+    if norm_x <= threshold {
         return Array1::<F>::zeros(x.len());
     }
     let scale = F::one() - threshold / norm_x;
